@@ -703,7 +703,7 @@ def translate (c : Cfg) (r : Region) (dx dy : Int) : Region :=
     | d => ⟨⟨x1, y1, x2, y2⟩, d⟩
   else if outOfRange c x1 y1 x2 y2 then
     let e := r.extents
-    ⟨⟨e.x1, e.y1, e.x1, e.y1⟩, .emptyStatic⟩
+    ⟨⟨e.x1, e.y1, e.x1, e.y1⟩, if r.nar then .broken else .emptyStatic⟩
   else
     let e := clampBox c x1 y1 x2 y2
     match r.data with
